@@ -696,6 +696,70 @@ func runSetters(c *harness.Ctx) harness.Result {
 	return res
 }
 
+// 10. option assignments from several goroutines at once, each to a different option: afterwards
+// every assignment must be in effect, as it is when they are made one after the other
+func runOptions(c *harness.Ctx) harness.Result {
+	r := c.Rng
+	sets := [][2]string{{"focus", "aaa"}, {"ignore", "bbb"}, {"hide", "ccc"}, {"show", "ddd"}, {"nodecount", "7"}, {"unit", "ms"}, {"sort", "cum"}, {"granularity", "lines"}, {"tagfocus", "eee"}, {"noinlines", "true"}}
+	defaults := [][2]string{{"focus", ""}, {"ignore", ""}, {"hide", ""}, {"show", ""}, {"nodecount", "-1"}, {"unit", "minimum"}, {"sort", "flat"}, {"granularity", "functions"}, {"tagfocus", ""}, {"noinlines", "false"}}
+	reset := func() {
+		for _, d := range defaults {
+			driver.SetVariableDefault(d[0], d[1])
+		}
+	}
+	reset()
+	defer reset()
+	r.Shuffle(len(sets), func(i, j int) { sets[i], sets[j] = sets[j], sets[i] })
+	k := 3 + r.Intn(len(sets)-2)
+	chosen := sets[:k]
+	for _, s := range chosen {
+		driver.SetVariableDefault(s[0], s[1])
+	}
+	want := driver.VerifCurrentConfig()
+	res := harness.Result{NonTrivial: true, Sig: fmt.Sprint("options", c.Index), Sample: map[string]any{"assignments": fmt.Sprint(chosen), "serial_result": want}}
+	for trial := 0; trial < 40; trial++ {
+		reset()
+		var wg sync.WaitGroup
+		var st stamps
+		gate := make(chan struct{})
+		for _, s := range chosen {
+			wg.Add(1)
+			go func(s [2]string) {
+				defer wg.Done()
+				<-gate
+				st.do(func() { driver.SetVariableDefault(s[0], s[1]) })
+			}(s)
+		}
+		// readers at the same time
+		stop := make(chan struct{})
+		var rg sync.WaitGroup
+		rg.Add(1)
+		go func() {
+			defer rg.Done()
+			for {
+				select {
+				case <-stop:
+					return
+				default:
+					_ = driver.VerifCurrentConfig()
+				}
+			}
+		}()
+		close(gate)
+		wg.Wait()
+		close(stop)
+		rg.Wait()
+		c.Stat("option_assignments", int64(k))
+		c.Stat("option_overlaps", int64(st.overlaps()))
+		if got := driver.VerifCurrentConfig(); got != want {
+			res.Verdict = harness.Violated
+			res.Detail = fmt.Sprintf("%d assignments to different options made concurrently (%v): options in effect afterwards %q, made one after the other %q (an assignment was lost)", k, chosen, got, want)
+			return res
+		}
+	}
+	return res
+}
+
 func writeTinyELF(path string) error {
 	// ELF64 header + one PT_LOAD (R+X) at 0x400000, little endian
 	h := make([]byte, 64+56)
@@ -742,7 +806,7 @@ func init() {
 		ID:          "C20",
 		Level:       "exploration",
 		Race:        true,
-		Rule:        "all workers are built with -race (GORACE halt_on_error=0, reports collected from the log files and de-duplicated by the functions on top of both stacks; any report is a violation). Workloads, each compared with its sequential twin: codec (8-32 goroutines x Write / WriteUncompressed / Copy / String on one profile, plus a merged profile and its compaction serialized at the same time; bytes must equal the sequential ones), web (4-11 clients mixing /top /peek /flamegraph /source /disasm /download / with /saveconfig and /deleteconfig against one server while 2 writers flip an option through SetVariableDefault; every response must equal a sequential response for one of the option values written, Config menu excluded), fetch (2-300 sources fetched in parallel through the gated fetcher with a shared Binutils object tool; two completion orders must agree, and the same profiles served over HTTP to pprof's own fetcher, ungated, with per-source seconds= parameters must give the same report), temp (32 goroutines x 4 and 6 processes x 12 temporary files in one directory: names distinct, contents intact), tools (6-11 goroutines x 8 SourceLine calls on one object file behind an interposed symbolizer that echoes its question, while SetTools / SetFastSymbolization / Open race), firstweb (a fresh child process whose first 4-11 web requests are released together by a barrier, each compared with the same request repeated alone), tools-addr2line (4-9 goroutines x 8 SourceLine calls through one interposed GNU-addr2line process that answers one of the lookups with a diagnostic line: every call returns an answer that pairs with its question, nothing, or an error). setters (SetFastSymbolization issued while SetTools probes an interposed slow objdump: the final state must be the one of either serial order). A case that does not finish within 2 min in 3 of 3 fresh worker processes is a deadlock (violation, goroutine dump attached). Every workload records call/return stamps from one clock and reports the number of really overlapping operation pairs. non-trivial = every case; distinct = case",
+		Rule:        "all workers are built with -race (GORACE halt_on_error=0, reports collected from the log files and de-duplicated by the functions on top of both stacks; any report is a violation). Workloads, each compared with its sequential twin: codec (8-32 goroutines x Write / WriteUncompressed / Copy / String on one profile, plus a merged profile and its compaction serialized at the same time; bytes must equal the sequential ones), web (4-11 clients mixing /top /peek /flamegraph /source /disasm /download / with /saveconfig and /deleteconfig against one server while 2 writers flip an option through SetVariableDefault; every response must equal a sequential response for one of the option values written, Config menu excluded), fetch (2-300 sources fetched in parallel through the gated fetcher with a shared Binutils object tool; two completion orders must agree, and the same profiles served over HTTP to pprof's own fetcher, ungated, with per-source seconds= parameters must give the same report), temp (32 goroutines x 4 and 6 processes x 12 temporary files in one directory: names distinct, contents intact), tools (6-11 goroutines x 8 SourceLine calls on one object file behind an interposed symbolizer that echoes its question, while SetTools / SetFastSymbolization / Open race), firstweb (a fresh child process whose first 4-11 web requests are released together by a barrier, each compared with the same request repeated alone), tools-addr2line (4-9 goroutines x 8 SourceLine calls through one interposed GNU-addr2line process that answers one of the lookups with a diagnostic line: every call returns an answer that pairs with its question, nothing, or an error). options (3-10 assignments to different options made at the same moment by as many goroutines, 40 trials, while a reader polls the configuration: every assignment must be in effect afterwards), setters (SetFastSymbolization issued while SetTools probes an interposed slow objdump: the final state must be the one of either serial order). A case that does not finish within 2 min in 3 of 3 fresh worker processes is a deadlock (violation, goroutine dump attached). Every workload records call/return stamps from one clock and reports the number of really overlapping operation pairs. non-trivial = every case; distinct = case",
 		Assumptions: []string{"the race detector only sees accesses that happen in these runs", "sharing one fileNM object between goroutines is not something pprof does and is not exercised"},
 		Parts: []harness.Part{
 			{Name: "codec", Quick: 60, Thor: 3000, Run: runCodec},
@@ -753,6 +817,7 @@ func init() {
 			{Name: "firstweb", Quick: 16, Thor: 400, Run: runFirstWeb},
 			{Name: "tools-addr2line", Quick: 16, Thor: 400, Run: runToolsA2L},
 			{Name: "setters", Quick: 8, Thor: 100, Run: runSetters},
+			{Name: "options", Quick: 16, Thor: 400, Run: runOptions},
 		},
 		CaseTimeout:   2 * time.Minute,
 		HangTries:     3,
